@@ -817,18 +817,21 @@ def main(chk: Check):
     prop_bad = text_bad + upd_bad
     spec_bad = []
     mism = {}
-    import concurrent.futures as cf
+    # one evaluation for all streams (fewer coqc start-ups): cases are (stream tag, case)
+    tags = {"line": 0, "text": 1, "update": 2, "parse": 3}
+    allrows, origin = [], []
+    for name, rows, _ in streams:
+        for k, (term, res) in enumerate(rows):
+            allrows.append((f"({tags[name]}%nat, {term})", res))
+            origin.append((name, k))
     if ok:
-        with cf.ThreadPoolExecutor(max_workers=4) as ex:
-            futs = {name: ex.submit(chk.coq_eval, name, IMPORTS, "bstr", rows, evals, chk.n(70, 250))
-                    for name, rows, evals in streams}
-        for name, rows, evals in streams:
-            r = futs[name].result()
-            if r is None:
-                continue
-            mism[name] = r[0]
-            if len(r) > 1:
-                spec_bad += [(name, i) for i in r[1]]
+        r = chk.coq_eval("all", IMPORTS, "nat * bstr", allrows,
+                         ["mismatches run_any cases", "where_ (fun i r => negb (spec_any_ok i r)) cases"],
+                         shard=chk.n(160, 300))
+        if r is not None:
+            for g in r[0]:
+                mism.setdefault(origin[g][0], []).append(origin[g][1])
+            spec_bad += [origin[g] for g in r[1]]
     _lap("coq")
 
     # ---- property failures with a concrete input
